@@ -341,8 +341,12 @@ Definition handle_connack (rc : Z) (s : st) : st * option Z :=
   let s2 := run_site SiConnect true (CbConnect rc) s1 in
   (s2, Some (if rc =? 0 then 0 else connack_err rc)).
 
+(* the immediate retry of _handle_connack: an OSError of the new TCP connect is turned into CONN_LOST *)
 Definition downgrade (ok : bool) (s : st) : st * option Z :=
-  reconnect_body ok (set_proto 3 s).
+  match reconnect_body ok (set_proto 3 s) with
+  | (s1, Some rc) => (s1, Some rc)
+  | (s1, None) => (s1, Some E_CONN_LOST)
+  end.
 
 Definition handle_server_disconnect (rc : Z) (s : st) : st * option Z :=
   let (s1, _) := lost RServerDisc rc true s in (s1, Some 0).
